@@ -128,6 +128,8 @@ def parseOp (ts : List String) : Option Op :=
 
 def parseTAct (s : String) : Option TAct :=
   if s = "t" then some .tunref else if s = "T" then some .tref
+  else if s = "l" then some .later
+  else if s.startsWith "a" then ((s.drop 1).toString.toInt?).map TAct.timerAt
   else match parseAct s with
     | some .unbindSelf => none
     | some a => some (.win a)
@@ -165,6 +167,7 @@ def parseXOp (ts : List String) : Option XOp :=
   | ["iunref"] => some .iunref
   | "ilater" :: acts => do some (.ilater (← acts.mapM parseTAct))
   | "itimer" :: ms :: acts => do some (.itimer (← int? ms) (← acts.mapM parseTAct))
+  | "itimerat" :: ms :: acts => do some (.itimerat (← int? ms) (← acts.mapM parseTAct))
   | ["icancel", k] => do some (.icancel (← nat? k))
   | "itick" :: toks => do some (.itick (← toks.mapM parseTok))
   | ["mresize", l, c] => do some (.mresize (← int? l) (← int? c))
